@@ -600,7 +600,7 @@ def fragment_campaign(chk, rng, sources, budget, seen_fail):
                 appl = D.xml_applicable
             for path in nodes:
                 for op in appl(wrap, path):
-                    if op in ("wronglist", "harmless") or (op == "dupid" and len(path) <= 3):
+                    if op in ("wronglist", "harmless", "nsrebind") or (op == "dupid" and len(path) <= 3):
                         continue
                     specs.append((fmt, fi, path, op))
     chk.cov["fragment_cases_enumerated"] = len(specs)
@@ -705,8 +705,10 @@ def run(chk):
             chk.obligations.append((n, "not-checked", []))
     # ---- oracle campaign (+ event observation)
     t0 = time.time()
-    sources, notes = C.build_sources(rng, n_gen)
+    sources, notes, prefails = C.build_sources(rng, n_gen)
     chk.notes += notes
+    chk.cov["base_documents"] = {"read_by_all_four_readers": len(sources), "oracle_failures_undamaged": len(prefails),
+                                 "skipped_with_note": notes}
     specs, total = C.enumerate_cases(rng, sources, budget)
     chk.cov["damage_cases_enumerated"] = total
     chk.cov["damage_cases_run"] = len(specs)
@@ -721,6 +723,15 @@ def run(chk):
     for ev in events:
         EV.merge((origin, unwind), ev)
     seen_fail = {}
+    for fmt, kind, text, data in prefails:
+        sig = f"C09:{fmt}:{kind}"
+        if sig in seen_fail:
+            seen_fail[sig]["n"] += 1
+            continue
+        seen_fail[sig] = {"n": 1, "what": text,
+                          "replay": {"kind": "bytes", "fmt": fmt, "wellformed": True,
+                                     "data_hex": (data if isinstance(data, bytes) else data.encode()).hex(),
+                                     "how": "tools/c09.py replay(): bytes_oracle on the undamaged document"}}
     for spec, r in zip(specs, results):
         if r is None:
             chk.count("n/a")
@@ -746,6 +757,8 @@ def run(chk):
             damaged = {small[1][2]} | ({small[6]} if small[4] == "dupid" and len(small[3]) == 3 else set())
             if small[4] == "harmless":
                 damaged = set()
+            if D.damages_all(small[4], small[5]):
+                damaged = set(ids)
             seen_fail[sig] = {"n": 1, "what": f"{rr['fail'][1]} [operator {small[4]} at {rr['ctx'][0]}.{rr['ctx'][1]}, "
                                              f"document from {src['name']}]",
                               "replay": {"kind": "damage", "fmt": fmt,
@@ -828,7 +841,7 @@ def run(chk):
     return chk.finish(
         level="proof",
         rule="valid documents = SDK examples + seeded aasgen stores written by the SDK writers; each case damages one node "
-             "(every member / list item / element below a chosen identifiable) with one of 12 damage operators or the 13th, harmless, operator (XML comment / processing instruction / white space at or inside the node, JSON white space / member order / escapes: both readers must return the undamaged result) and reads a document "
+             "(every member / list item / element below a chosen identifiable) with one of 13 damage operators (the 13th: re-binding the XML namespace prefix / default namespace on the root or one element) or the harmless operator (XML comment / processing instruction / white space at or inside the node, JSON white space / member order / escapes: both readers must return the undamaged result) and reads a document "
              "holding the victim and up to two untouched witnesses with all four readers; all node x operator pairs are "
              "enumerated and a seeded sample of the budget is run; plus fixed and random well-formed non-AAS documents, "
              "truncated/garbled bytes, and random multi-item documents for the walk model; non-trivial = every damage "
